@@ -223,6 +223,8 @@ FIXED = [
                             "was not read back: postamble looked for at the physically following byte (C09, C16)"),
     fixed("C07", "5b72d76", "empty binary / BASIC file not read back from a disk image: recorded length 0 taken for 'no length recorded' "
                             "(C09, C16)"),
+    fixed("C03", "42d0167", "a branch to its own statement (LOOP BRA LOOP) got displacement 0: fix_addresses took the forward path for "
+                            "branch_index == this_index (C01)"),
     fixed("C08", "acb1d1b", "postamble written past the end of the granule (into the directory track from granule 33, into other files' "
                             "granules, or past the end of the image: `Not enough bytes to write postamble`) when it straddled a granule "
                             "end (C07, C15, C09, C16)"),
